@@ -202,7 +202,8 @@ emit_ioc_value(arg_t *arg, struct asn1p_ioc_cell_s *cell) {
             OUT(";\n");
         } else {
             OUT(" };");
-            OUT(" /* %s */\n", asn1f_printable_value(expr_value->value));
+            OUT(" /* %s */\n",
+                asn1c_comment_safe(asn1f_printable_value(expr_value->value)));
         }
     }
 
